@@ -5,10 +5,13 @@
 (*               20-byte digests with set top bit / leading zero nibbles   *)
 (*               and bytes), Step computes the signed-hex text;            *)
 (*  kind "hash": observations recorded from the real                       *)
-(*               generate_verification_hash (the update() calls in order   *)
-(*               and the result) are recomputed: the updates must be       *)
-(*               <<utf8(server id), secret, key>> and the result           *)
-(*               SignedHex(SHA1(concatenation)).                           *)
+(*               generate_verification_hash, and of the string the login   *)
+(*               reactor hands to the session join for the server id, the  *)
+(*               secret the key holder recovers and the key bytes the      *)
+(*               server sent: the result must be                           *)
+(*               SignedHex(SHA1(utf8(id) \o secret \o key)).  (The update() *)
+(*               calls are recorded for diagnosis only: how the input is   *)
+(*               chunked is not part of the property.)                     *)
 (***************************************************************************)
 EXTENDS SignedHex, SHA1, Json, IOUtils
 
@@ -34,8 +37,7 @@ Spec == Init /\ [][Next]_vars
 HashMatches ==
   (phase = "done" /\ c.k = "hash") =>
      LET o == Obs[c.i] IN
-     /\ o.updates = <<Utf8(o.sid), o.secret, o.key>>
-     /\ o.result = res
+     o.result = res
 \* formatter sanity: minus sign iff top bit set, no leading zero, lower-case hex only
 FormatShape ==
   (phase = "done" /\ c.k = "fmt" /\ c.d # <<>>) =>
